@@ -1,5 +1,6 @@
 import IpldModel.Model.Term
 import IpldModel.Model.Transform
+import IpldModel.Model.WalkTransform
 import Driver.Walk
 namespace Ipld.Driver
 open Ipld Ipld.Sel Ipld.Walk Ipld.Transform
@@ -22,7 +23,10 @@ def splitAt (tok : String) (l : List String) : List String × List String :=
   (l.takeWhile (· ≠ tok), (l.dropWhile (· ≠ tok)).drop 1)
 
 /-- xform.focus <createParents t|f> <path p:…> <id|del|const|wrap> STORE … ROOT <term…> VAL <term…>
-      → ok <result with every link resolved> w=<blocks written> | err -/
+      → ok <result with every link resolved> w=<blocks written> | err
+    xform.walkt <id|succ> <nodeBudget|-> <linkBudget|-> <once t|f> <startPath p:…> <skip cidhex,…|-> STORE … ROOT <term…> SEL <term…>
+      → compile-reject | (ok <result term, links NOT resolved> | budget:node | budget:link | err:load | err:other | panic)
+        CALLS <path> <node term> | <path> <node term> …      (the callback's calls, in order) -/
 def xformHandler : List String → Option String
   | "xform.focus" :: cp :: p :: kind :: "STORE" :: rest =>
     match parsePathArg p, parseStore (rest.length + 1) rest [] with
@@ -36,6 +40,35 @@ def xformHandler : List String → Option String
         | .ok (some r, st) => some s!"ok {(expandFuel st.store 1000 r).toTerm} w={st.written.length}"
       | _, _ => some "bad-term"
     | _, _ => some "bad-args"
+  | "xform.walkt" :: mode :: nb :: lb :: once :: _start :: skip :: "STORE" :: rest =>
+    -- the same graph / selector / configuration encoding as `walk.run` (the start path is carried and ignored:
+    -- `walkTransforming` does not read `StartAtPath`)
+    match optInt nb, optInt lb, parseStore (rest.length + 1) rest [] with
+    | some nb, some lb, some (store, rest1) =>
+      let skipL : Option (List Bytes) := if skip == "-" then some [] else (skip.splitOn ",").mapM bytesOfHex
+      let fn : Option WalkT.TFn := match mode with
+        | "id" => some WalkT.fnId
+        | "succ" => some WalkT.fnSucc
+        | _ => none
+      match skipL, fn, parseTerm rest1 with
+      | some sk, some fn, some (root, "SEL" :: selToks) =>
+        match parseTermAll selToks with
+        | some spec =>
+          match compileSelector spec with
+          | .error .panic => some "compile-panic"
+          | .error .reject => some "compile-reject"
+          | .ok s =>
+            let cfg : Cfg := { store := store, skip := sk, linkOnce := once == "t" }
+            let r := WalkT.run cfg fn 100000 nb lb root s
+            let calls := " | ".intercalate ((WalkT.callsOf r.events).map fun c => showPath c.1 ++ " " ++ c.2.toTerm)
+            let out := match r.outcome with
+              | .ok d => "ok " ++ d.toTerm
+              | .error (.walk e) => showErr e
+              | .error .callback => "err:callback"
+            some (out ++ " CALLS " ++ calls)
+        | none => some "bad-selector-term"
+      | _, _, _ => some "bad-args"
+    | _, _, _ => some "bad-args"
   | _ => none
 
 end Ipld.Driver
